@@ -4,7 +4,7 @@
  * The FSM state under proof is assigned concretely (symbolic execution then prunes the switch). */
 #include "l1_env.h"
 #ifdef JOB_STATE
-#define EV_GHOST_CLAUSE (G_EV.rd_calls == E.rd_calls && G_EV.wr_calls == E.wr_calls && G_EV.h_calls == E.h_calls && G_EV.vw_calls == E.vw_calls && G_EV.vr_calls == E.vr_calls)
+#define EV_GHOST_CLAUSE (G_HES == self->hold_exit_status && (g_w >= H_CAPU || G_UBYTE == UBUFP[g_w]) && G_EV.rd_calls == E.rd_calls && G_EV.wr_calls == E.wr_calls && G_EV.h_calls == E.h_calls && G_EV.vw_calls == E.vw_calls && G_EV.vr_calls == E.vr_calls)
 #else
 #define EV_GHOST_CLAUSE 1
 #endif
@@ -147,11 +147,12 @@ static void h_reset_logs(void)
         E = z; G_EV = z; EL = zl;
         g_old = h_obj;
         for (i = 0; i < H_BUFSZ; i++) g_oldbuf[i] = h_buf[i];
+        { size_t a, b, c; for (a = 0; a < H_NC; a++) for (b = 0; b < H_NV; b++) for (c = 0; c < H_DS; c++) g_oldvdata[a][b][c] = h_vdata[a][b][c]; }
 #if !H_SHARED
         for (i = 0; i < H_UBUFSZ + 1; i++) g_oldubuf[i] = h_ubuf[i];
 #endif
         g_sat = 0; g_ndig = 0; g_size = 0; g_nesc = 0;
-        g_k = nondet_size(); g_j = nondet_size();
+        g_k = nondet_size(); g_j = nondet_size(); g_w = nondet_size();
         g_len = h_obj.length;
         if (h_obj.var != NULL && g_j < H_DS) g_oldbyte = ((const uint8_t *)h_obj.var->data)[g_j];
 }
